@@ -106,7 +106,7 @@ def cfg_text(k, properties=True):
         f"MaxFaults = {k['F']}  FaultKinds = {kinds}  Fixed = {'TRUE' if k.get('Fixed', True) else 'FALSE'}\n"
     )
     if properties:
-        s += "INVARIANT TypeOK\nINVARIANT NoCrash\nINVARIANT OutPrefix\nINVARIANT FinishedComplete\nINVARIANT NoAbortWithoutFault\nINVARIANT NoLiveWorkerAtExit\nPROPERTY Terminates\n"
+        s += "INVARIANT TypeOK\nINVARIANT NoCrash\nINVARIANT OutPrefix\nINVARIANT FinishedComplete\nINVARIANT NoAbortWithoutFault\nINVARIANT NoLiveWorkerAtExit\nINVARIANT EarlyDeathNeverSucceeds\nPROPERTY Terminates\n"
     else:
         s += "POSTCONDITION AllConsumed\n"
     s += "CHECK_DEADLOCK FALSE\n"
@@ -134,7 +134,7 @@ def _outcome_case(cid, k, res, ref):
         lines.pop()
     lines = [l + "\n" for l in lines]
     prios = [prio_of(l.split("\t")[0]) for l in lines]
-    return {"id": cid, "R": k["R"], "faults": res["faults"], "end": res["end"], "end_detail": res["end_detail"], "prios": prios,
+    return {"id": cid, "R": k["R"], "faults": res["faults"], "early": res.get("early", 0), "end": res["end"], "end_detail": res["end_detail"], "prios": prios,
             "lines": lines, "ref": ref, "diverged": res["diverged"]}
 
 
@@ -202,7 +202,7 @@ def judge_outcomes(ctx, outcomes, kind):
     for o in outcomes:
         v = verdicts[o["id"]]
         if v != "ok":
-            ctx.violation(v, {"outcome": {x: o[x] for x in ("R", "faults", "end", "end_detail", "prios", "diverged")}, "how_the_model_was_left": o["lockstep"]})
+            ctx.violation(v, {"outcome": {x: o[x] for x in ("R", "faults", "early", "end", "end_detail", "prios", "diverged")}, "how_the_model_was_left": o["lockstep"]})
         else:
             div["count"] += 1
             if len(div["examples"]) < 3:
